@@ -16,7 +16,7 @@
    The finite-element solve itself (scikit-fem, NEML) is tied by the
    differential runs of harness/props/c15.py, not proved. *)
 From Coq Require Import QArith List Bool String.
-From SV Require Import model.Strain proofs.StrainProofs gen.StrainBook proofs.StrainGen.
+From SV Require Import model.Strain proofs.StrainProofs gen.StrainBook proofs.StrainGen model.FE1D proofs.FE1DProofs.
 Import ListNotations.
 
 Theorem C15_code_step_is_model_step :
@@ -114,3 +114,11 @@ Print Assumptions C15_only_free_expansion_is_stress_free.
 Example C15_example :
   (nth 1 (th_hist (fun T => 1 # 100000) 0 300 [400; 350]) 0 == (1 # 100000) * (350 - 300))%Q.
 Proof. vm_compute. reflexivity. Qed.
+
+(* free expansion at the level of the discrete equations: u = c r with axial strain c and thermal strain c at every
+   quadrature point leaves no nodal force, on every mesh, with every quadrature rule and every elastic data *)
+Theorem C15_free_expansion_solves_the_discrete_equations :
+  forall c gs rs ds, mesh_ok gs rs -> Forall (Forall (fun d => (FE1D.th d == c)%Q)) ds ->
+  all_zero (internal_force c gs rs (map (Qmult c) rs) ds).
+Proof. exact free_expansion_is_a_discrete_solution. Qed.
+Print Assumptions C15_free_expansion_solves_the_discrete_equations.
